@@ -5,6 +5,8 @@ import Logrange.Generated.C09
 
 * `choose <dry 0|1> <max> <min> <before> <jsize> <k> (<id> <size> <maxTs>){k}`
     — `Service.truncate` on a chunk list → `<n> <removed> <bySize> <byTime> <ids left, comma separated | ->`
+* `hull <k> (<min> <max>){k}` — the time hull of a chunk after k write notifications (`chkInfo` creation + `update`)
+* `dropat <users> <k> (<id> <size> <maxTs>){k}` — `deleteJournal` under its exclusive lock over these chunks
 * `run <dry 0|1> <max|none> <min|none> <before|none> <maxdb|none> <np> (<src> <sel 0|1> <users> <k> (<id> <size> <maxTs>){k}){np}`
     — the whole command (`cmdTruncate` parameter mapping, `Service.Truncate`, `truncateGlobally`) for EVERY visiting
       order of the partitions → `tie=<0|1> n=<number of distinct outcomes> ; <outcome> ; <outcome> …`, outcomes sorted;
@@ -87,6 +89,20 @@ def step (u : Unit) (toks : List String) : Unit × String :=
     let p := mkParams (dry == "1") (optNat mn) (optNat mx) (optI bef) (optNat mdb)
     let outs := sortBy (fun (a b : String) => a < b) (dedup ((perms parts).map (showOutcome p)))
     (u, s!"tie={b01 (hasTie p parts)} n={outs.length} ; {" ; ".intercalate outs}")
+  | "hull" :: k :: rest =>
+    -- `hull <k> (<min> <max>){k}`: the chunk hull after k write notifications → `<min> <max>`
+    let rec rd : Nat → List String → List Hull
+      | 0, _ => []
+      | n+1, a :: b :: ts => ⟨intOf a, intOf b⟩ :: rd n ts
+      | _, _ => []
+    (match chunkHull Logrange.Generated.C09.hullUpdateIndependentIfs (rd (natOf k) rest) with
+     | some h => (u, s!"{h.minTs} {h.maxTs}")
+     | none => (u, "none"))
+  | "dropat" :: users :: k :: rest =>
+    -- `dropat <users> <k> (<id> <size> <maxTs>){k}`: deleteJournal holding the exclusive lock over these chunks →
+    -- `<as the code is now> <without the size re-check>`
+    let cks := (readChunks (natOf k) rest).1
+    (u, s!"drops={b01 (deleteJournalAt Logrange.Generated.C09.deleteJournalRechecksSize (natOf users) cks)} withoutRecheck={b01 (deleteJournalAt false (natOf users) cks)}")
   | _ => (u, "bad-op")
 
 def main (args : List String) : IO Unit := Driver.run step () args
